@@ -1261,7 +1261,9 @@ fn check_expect(s: &Value, done: bool) {
         want.sort();
         let got = arrived_unreleased();
         let wdone = exp["done"].as_bool().unwrap_or(false);
-        if want != got || wdone != done {
+        // once the future has completed the parked set is not part of the projection: an async try macro
+        // completes with the first failure it sees and never polls the siblings behind it again
+        if (want != got && !(wdone && done)) || wdone != done {
             log(json!({"ev":"mismatch","what":"projection","expect":exp,"got":{"arrived":got,"done":done}}));
         }
     }
